@@ -173,17 +173,18 @@ var errFail = fmt.Errorf("closure failed on purpose")
 // runner executes one script; with ctl != nil hooks are recorded and (Mode "steer") the
 // flusher is parked at its yield points and released by "fl" steps.
 type runner struct {
-	s    Script
-	ctl  *gate.Ctl
-	dir  string
-	tr   *rec.Trace
-	km   *kvmap.Map
-	st   *dbx.Store
-	c    *dbx.Sess
-	cfg  CfgJSON
-	res  *ScriptResult
-	keep bool              // keep the directory
-	rd   map[int]*dbx.Sess // long-lived readers
+	s      Script
+	ctl    *gate.Ctl
+	dir    string
+	tr     *rec.Trace
+	km     *kvmap.Map
+	st     *dbx.Store
+	c      *dbx.Sess
+	cfg    CfgJSON
+	res    *ScriptResult
+	keep   bool              // keep the directory
+	rd     map[int]*dbx.Sess // long-lived readers
+	closes int
 }
 
 // flIdle: the flusher is parked at fl.wait and nothing is queued.
@@ -244,12 +245,17 @@ func (r *runner) onClient(point string, args []any) {
 			r.ctl.Step()
 			r.res.FlSteps++
 		}
+		// sometimes the flusher is slow while Close runs: whatever Close does itself then overtakes
+		// the work that is still queued
+		r.closes++
+		r.ctl.FlDelay = []time.Duration{0, 0, 2 * time.Millisecond, 8 * time.Millisecond}[(int(r.s.Seed%7)+r.closes)%4]
 		r.ctl.SteerFlusher(false)
 	}
 }
 
 func (r *runner) open(first bool) error {
 	if r.ctl != nil {
+		r.ctl.FlDelay = 0
 		r.ctl.NewDB()
 		r.ctl.Adopt(r.dir)
 		r.ctl.SteerFlusher(r.s.Mode == "steer")
